@@ -42,6 +42,11 @@ func ExpandNamedUUIDs(ops []Operation, schema *DatabaseSchema) ([]Operation, err
 	// Pass 2: replace named UUIDs in operation fields with the real UUID
 	for i := range ops {
 		op := &ops[i]
+		switch op.Op {
+		case OperationCommit, OperationAbort, OperationComment, OperationAssert:
+			// these operations do not refer to a table and hold no values
+			continue
+		}
 		tableSchema := schema.Table(op.Table)
 		if tableSchema == nil {
 			return nil, fmt.Errorf("table %q not found in schema %q", op.Table, schema.Name)
